@@ -10,6 +10,7 @@ import (
 
 	v1 "k8s.io/api/core/v1"
 	resourceapi "k8s.io/api/resource/v1"
+	"k8s.io/component-helpers/scheduling/corev1/nodeaffinity"
 	"k8s.io/dynamic-resource-allocation/cel"
 	"k8s.io/dynamic-resource-allocation/structured"
 	k8sframework "k8s.io/kubernetes/pkg/scheduler/framework"
@@ -265,8 +266,11 @@ func (drap *draPlugin) allocateResourceClaim(task *pod_info.PodInfo, podClaim *v
 	resources.UpsertReservedFor(claim, task.Pod)
 
 	// If the claim info has already been allocated in the past (the deallocation was virtual), recover previous allocation data
+	// A claim that is allocated in the cache keeps that allocation (another consumer of a shared claim holds it,
+	// possibly on other devices than the ones this task remembers).
 	allocatedFromMemory := false
-	if claimAllocationInfo, ok := task.ResourceClaimInfo[podClaim.Name]; ok && claimAllocationInfo.Allocation != nil {
+	if claimAllocationInfo, ok := task.ResourceClaimInfo[podClaim.Name]; ok && claimAllocationInfo.Allocation != nil &&
+		claim.Status.Allocation == nil && allocationUsableOnNode(claimAllocationInfo.Allocation, node) {
 		claim.Status.Allocation = claimAllocationInfo.Allocation.DeepCopy()
 		allocatedFromMemory = true
 	}
@@ -351,6 +355,20 @@ func (drap *draPlugin) deallocateResourceClaim(task *pod_info.PodInfo, podClaim 
 	log.InfraLogger.V(6).Infof("Deallocated claim <%s/%s>, devices <%s>.", task.Namespace, claimName, devicesDeallocatedStr)
 
 	return nil
+}
+
+// allocationUsableOnNode reports whether a remembered allocation can be taken over as it is for a task placed on the
+// node: node-local devices (the allocation carries a node selector) only on a node the selector matches. A task that
+// is nominated on another node than the one it was evicted from needs a new allocation there.
+func allocationUsableOnNode(allocation *resourceapi.AllocationResult, node *v1.Node) bool {
+	if allocation.NodeSelector == nil {
+		return true
+	}
+	selector, err := nodeaffinity.NewNodeSelector(allocation.NodeSelector)
+	if err != nil {
+		return false
+	}
+	return selector.Match(node)
 }
 
 func getClaimDevicesString(claim *resourceapi.ResourceClaim) string {
